@@ -307,10 +307,16 @@ def constructs_of(P):
         return None
 
 
-def semantic_features(P):
-    """features of the input the semantic known findings are keyed on"""
+# clauses that the loss of state invariants (written `[ all ] e;`, read back as a timed goal over [start, end]) can trigger
+INV_CLAUSES = ("applicability-A-inv-B-ok", "initial-state-validity-differs", "instantaneous-step-A-inv-B-ok", "invariants-A-F-B-T",
+               "timed-goal-A-T-B-F", "timed-goal-interval-invented", "timed-goals-invented",
+               "plan-validity-A-INVALID-invs-B-VALID-ok", "plan-validity-A-INVALID-init-B-VALID-ok")
+
+
+def semantic_features(clause, P):
+    """features of the input the semantic known findings are keyed on (only for the clauses the feature can explain)"""
     fs = []
-    if P.get("invariants"):
+    if P.get("invariants") and clause in INV_CLAUSES:
         fs.append("invariants")
     return fs
 
@@ -714,7 +720,7 @@ def signature(clause, detail, rec):
         if rec["fresh_env"]:
             return "parse-fails|reader-environment|" + str(detail)
         return "parse-fails|none|" + str(detail)
-    feats = semantic_features(rec["P"])
+    feats = semantic_features(clause, rec["P"])
     return clause + ("|" + ",".join(feats) if feats else "")
 
 
